@@ -222,6 +222,60 @@ func (m *mapTr) closure(list []ast.Stmt, ind int) {
 	m.add(ind, "Go.pureC ()")
 }
 
+// prog renders the (already validated) statement list as a value of Go.Prog (Model/GoMap.lean): the
+// same method as a deep-embedded program, which Lemmas/ConcCode.lean gives an interleaving semantics.
+func (m *mapTr) prog(list []ast.Stmt) string {
+	switch x := list[0].(type) {
+	case *ast.ReturnStmt:
+		id := x.Results[0].(*ast.Ident)
+		if id.Name == "nil" {
+			return "Go.Prog.retNil"
+		}
+		return "(Go.Prog.retVar Gen.map_" + id.Name + ")"
+	case *ast.SwitchStmt:
+		var sb strings.Builder
+		var def *ast.CaseClause
+		closes := 0
+		for _, c := range x.Body.List {
+			cc := c.(*ast.CaseClause)
+			if cc.List == nil {
+				def = cc
+				continue
+			}
+			conds := []string{}
+			for _, e := range cc.List {
+				conds = append(conds, fmt.Sprintf("decide (%s = Gen.v%s)", leanId(m.recv), e.(*ast.Ident).Name))
+			}
+			sb.WriteString("(if (" + strings.Join(conds, " || ") + ") then " + m.prog(cc.Body) + " else\n    ")
+			closes++
+		}
+		if def != nil {
+			sb.WriteString(m.prog(def.Body))
+		} else {
+			sb.WriteString(m.prog(list[1:]))
+		}
+		sb.WriteString(strings.Repeat(")", closes))
+		return sb.String()
+	case *ast.ExprStmt:
+		call := x.X.(*ast.CallExpr)
+		o := call.Fun.(*ast.SelectorExpr).X.(*ast.Ident).Name
+		fl := call.Args[0].(*ast.FuncLit)
+		var body []string
+		for _, st := range fl.Body.List {
+			switch y := st.(type) {
+			case *ast.AssignStmt:
+				body = append(body, "Go.CStmt.makeMap Gen.map_"+y.Lhs[0].(*ast.Ident).Name)
+			case *ast.RangeStmt:
+				tbl, _ := selName(y.X, "wordlist")
+				mv := y.Body.List[0].(*ast.AssignStmt).Lhs[0].(*ast.IndexExpr).X.(*ast.Ident).Name
+				body = append(body, "Go.CStmt.fill Gen.map_"+mv+" Gen.t"+tbl)
+			}
+		}
+		return "(Go.Prog.onceDo Gen.once_" + o + " [" + strings.Join(body, ", ") + "] " + m.prog(list[1:]) + ")"
+	}
+	panic(mapTrErr{"prog: unexpected statement"})
+}
+
 // mappingLean returns the content of Gen/Code/Language_mapping.lean and "" or the reason for refusal.
 func mappingLean(fset *token.FileSet, files map[string]*ast.File, lf *LangFacts, tables map[string]bool) (text string, why string) {
 	var fd *ast.FuncDecl
@@ -283,6 +337,7 @@ func mappingLean(fset *token.FileSet, files map[string]*ast.File, lf *LangFacts,
 	fmt.Fprintf(&sb, "/-- Language.mapping (%s:%d) -/\n", file, fset.Position(fd.Pos()).Line)
 	fmt.Fprintf(&sb, "def Language_mapping (%s : Int) : Go.MC Go.MapVal :=\n", leanId(m.recv))
 	sb.WriteString(strings.Join(m.lines, "\n"))
-	sb.WriteString("\n\nend Bip39V.Gen.Code\n")
+	fmt.Fprintf(&sb, "\n\n/-- the same method as a program (deep embedding) for the interleaving semantics of C12 -/\ndef Language_mapping_prog (%s : Int) : Go.Prog :=\n  %s\n", leanId(m.recv), m.prog(fd.Body.List))
+	sb.WriteString("\nend Bip39V.Gen.Code\n")
 	return sb.String(), ""
 }
